@@ -122,7 +122,8 @@ def startup(ctx, db):
                 seg = tr[loops[a]:loops[a + 1]]
                 ne = sum(1 for it in seg if it.k == 'call' and norm(it.get('callee')) in ('std::vector::emplace_back', 'std::vector::push_back') and it.get('recv') == 'local:cbs')
                 ch = [it for it in seg if it.k == 'call' and norm(it.get('callee')) == CHARGE]
-                if ne != 1 or len(ch) != 1 or ch[0].get('recv') != 'call(std::vector::back)':
+                # the callback charged is the one just emplaced: cbs.back(), or the reference returned by emplace_back
+                if ne != 1 or len(ch) != 1 or ch[0].get('recv') not in ('call(std::vector::back)', 'call(std::vector::emplace_back)'):
                     seen_bad = seen_bad or (f, 'a start-up iteration emplaces %d and charges %d callbacks (expected one each, charging the one just emplaced)' % (ne, len(ch)))
         cc = [e for e in evl if e.k == 'construct' and norm(e.get('callee')) == 'cocls::_details::generator_aggregator_controller::generator_aggregator_controller']
         if len(cc) != 1 or (cc[0].get('args') or [{}])[0].get('path') != 'call(std::vector::size)':
